@@ -14,6 +14,10 @@ let channels : (string * ((string * string) list -> string)) list = [
   ("chunks", Chan_split.run_ranges true);
   ("scc", Chan_scc.run);
   ("scccli", Chan_scc.run_cli);
+  ("llpcomb", Chan_llp.run_comb);
+  ("llpranks", Chan_llp.run_ranks);
+  ("llpinv", Chan_llp.run_inv);
+  ("llprun", Chan_llp.run_run);
 ]
 
 let () =
